@@ -357,7 +357,7 @@ def run_unit(name, tier='quick', variant=None, keep=True):
         for it in A.items:
             if it['kind'] == 'fn' and it['name'].split('.')[-1] not in names and it['name'] not in names:
                 fnname = re.sub(r'.*\bfn\s+', '', re.split(r'\s>\s', it['path'])[-1]).strip()
-                if fnname not in names:
+                if fnname not in names and it.get('emitted') not in names:
                     R.status, R.reason = 'undecided', f'function {it["name"]} produced no verification query (vacuous)'
     R.wall_s = time.time() - t0
     return R
